@@ -315,6 +315,9 @@ func (g *gen) genFunc(kind string) {
 	if f.hasDefer && !f.recovers && !g.on(kDeferSwallow) {
 		f.noSoft = true
 	}
+	if f.recovers && !g.on(kResidue) {
+		f.noSoftExpr = true
+	}
 	// named results
 	named := len(sig.results) > 0 && g.chance(30) && kind != "safe"
 	if named && f.recovers && !g.on(kRecoverNamed) {
